@@ -95,6 +95,8 @@ def check(ctx: Ctx) -> None:
     ctx.floor("AbsoluteSequence methods that change times/order", nsi, 4)
     from ..engines.mustflow import check_sorted_construction
     check_sorted_construction(ctx, "ABS-SORTED")
+    from ..engines.mustflow import check_overwrite_complete
+    ctx.floor("overwrite operations decided", check_overwrite_complete(ctx), 2)
     from ..engines.structure import bisect_rule      # add_message keeps the list ordered only if the insertion point is right
     ctx.floor("pieces of the sorted insertion decided", bisect_rule(ctx, "ABS-SORTED"), 1)
 
